@@ -492,35 +492,46 @@ func ruleVariableOrder(p *Prog, r *Report) {
 	const rule = "R27-order"
 	if fn := p.MustFunc(r, "ast", "getVariableNames"); fn != nil {
 		key := rule + ":ast.getVariableNames:ascending-by-position"
-		good := false
-		detail := "no sort.Slice call with a comparator on the positions found"
-		for _, an := range fn.AnonFuncs {
-			// less(i, j) must be  pos[result[i]] < pos[result[j]]
-			for _, b := range an.Blocks {
-				ret, ok := b.Instrs[len(b.Instrs)-1].(*ssa.Return)
-				if !ok || len(ret.Results) != 1 {
-					continue
-				}
-				bo, ok := ret.Results[0].(*ssa.BinOp)
-				if !ok {
-					detail = "the comparator does not return a comparison"
-					continue
-				}
-				li, lj := lookupIndexParam(bo.X, an), lookupIndexParam(bo.Y, an)
-				switch {
-				case bo.Op == token.LSS && li == 0 && lj == 1, bo.Op == token.GTR && li == 1 && lj == 0:
-					good = true
-				default:
-					detail = fmt.Sprintf("the comparator orders by %s between the positions of element %d and element %d: not ascending by position", bo.Op, li, lj)
+		if d, decided, ok := variableNamesByEvaluation(p, fn); decided {
+			if ok {
+				r.ok(rule, key, p.Pos(fn.Pos()), d)
+			} else {
+				r.bad(rule, key, p.Pos(fn.Pos()), d)
+			}
+			goto sizes
+		}
+		{
+			good := false
+			detail := "no sort.Slice call with a comparator on the positions found"
+			for _, an := range fn.AnonFuncs {
+				// less(i, j) must be  pos[result[i]] < pos[result[j]]
+				for _, b := range an.Blocks {
+					ret, ok := b.Instrs[len(b.Instrs)-1].(*ssa.Return)
+					if !ok || len(ret.Results) != 1 {
+						continue
+					}
+					bo, ok := ret.Results[0].(*ssa.BinOp)
+					if !ok {
+						detail = "the comparator does not return a comparison"
+						continue
+					}
+					li, lj := lookupIndexParam(bo.X, an), lookupIndexParam(bo.Y, an)
+					switch {
+					case bo.Op == token.LSS && li == 0 && lj == 1, bo.Op == token.GTR && li == 1 && lj == 0:
+						good = true
+					default:
+						detail = fmt.Sprintf("the comparator orders by %s between the positions of element %d and element %d: not ascending by position", bo.Op, li, lj)
+					}
 				}
 			}
-		}
-		if good {
-			r.ok(rule, key, p.Pos(fn.Pos()), "names are sorted ascending by their position in the value array, the order in which String() prints them")
-		} else {
-			r.bad(rule, key, p.Pos(fn.Pos()), detail)
+			if good {
+				r.ok(rule, key, p.Pos(fn.Pos()), "names are sorted ascending by their position in the value array, the order in which String() prints them")
+			} else {
+				r.bad(rule, key, p.Pos(fn.Pos()), detail)
+			}
 		}
 	}
+sizes:
 	for _, tn := range []string{"IntNode", "UintNode", "FloatNode", "BinaryNode", "BooleanNode", "ListNode"} {
 		fn := p.MustFunc(r, "ast", "(*"+tn+").Size")
 		if fn == nil {
@@ -1661,4 +1672,58 @@ func notationOfNode(p *Prog, fn *ssa.Function, node string) (string, bool, bool)
 		detail = fmt.Sprintf("for each of the %d widths: ", n) + detail
 	}
 	return detail, true, true
+}
+
+// variableNamesByEvaluation: getVariableNames evaluated on maps of up to four
+// names with distinct positions, the names visited in several orders: the
+// result must list them by ascending position.
+func variableNamesByEvaluation(p *Prog, fn *ssa.Function) (string, bool, bool) {
+	type scen struct {
+		visit []string
+		pos   map[string]int64
+		want  []string
+	}
+	scens := []scen{
+		{[]string{"a", "b", "c"}, map[string]int64{"a": 2, "b": 0, "c": 1}, []string{"b", "c", "a"}},
+		{[]string{"c", "b", "a"}, map[string]int64{"a": 2, "b": 0, "c": 1}, []string{"b", "c", "a"}},
+		{[]string{"x", "y"}, map[string]int64{"x": 7, "y": 3}, []string{"y", "x"}},
+		{[]string{"y", "x"}, map[string]int64{"x": 0, "y": 1}, []string{"x", "y"}},
+		{[]string{"d", "a", "c", "b"}, map[string]int64{"a": 10, "b": 300, "c": 2, "d": 11}, []string{"c", "a", "d", "b"}},
+		{[]string{"only"}, map[string]int64{"only": 5}, []string{"only"}},
+		{nil, map[string]int64{}, nil},
+	}
+	for _, sc := range scens {
+		in := NewInterp(p)
+		var keys []Val
+		for _, k := range sc.visit {
+			keys = append(keys, strVal(k))
+			in.InitBind["p0["+strVal(k).String()+"]"] = int64Val(sc.pos[k])
+		}
+		in.MapKeys["p0"] = keys
+		in.PathBind["len(p0)"] = int64Val(int64(len(keys)))
+		args := defaultArgs(fn)
+		if len(args) > 0 {
+			args[0] = Val{K: KPtr, S: "p0"}
+		}
+		out := in.Run(fn, args, nil)
+		if out.Frame == nil || len(in.Stuck) > 0 {
+			return "", false, false
+		}
+		rets := out.Frame.ReturnVals()
+		if len(rets) != 1 || len(rets[0]) != 1 || rets[0][0].K != KSlice || rets[0][0].Len < 0 {
+			return "", false, false
+		}
+		var got []string
+		for i := 0; i < rets[0][0].Len; i++ {
+			e := in.Elem(rets[0][0], i, types.Typ[types.String])
+			if e.K != KStr {
+				return "", false, false
+			}
+			got = append(got, e.S)
+		}
+		if strings.Join(got, ",") != strings.Join(sc.want, ",") {
+			return fmt.Sprintf("for the positions %v (names visited in the order %v) the names are listed as %v, expected %v: not ascending by position", sc.pos, sc.visit, got, sc.want), true, false
+		}
+	}
+	return fmt.Sprintf("evaluated on %d maps of up to four names with distinct positions, visited in several orders: the names are listed by ascending position", len(scens)), true, true
 }
